@@ -10,7 +10,8 @@ use surf_n_term::view::{
     Align, Axis, BoxConstraint, Justify, Margins, Text, Tree, View, ViewContext, ViewDeserializer, ViewLayoutStore,
 };
 use surf_n_term::{
-    Cell, Face, FaceAttrs, Glyph, Image, Key, KeyChord, KeyMod, KeyName, Size, Surface, SurfaceMut, SurfaceOwned, UnderlineStyle, RGBA,
+    Cell, Error, Face, FaceAttrs, Glyph, Image, Key, KeyChord, KeyMod, KeyName, Position, Size, Surface, SurfaceMut, SurfaceOwned,
+    Terminal, TerminalCaps, TerminalCommand, TerminalEvent, TerminalSize, TerminalWaker, UnderlineStyle, RGBA,
 };
 
 // ---------------------------------------------------------------- JSON documents with repeats and number classes
@@ -226,6 +227,14 @@ fn run_image_rt(input: &Value) -> Case {
     let (r0, r1) = (input["r0"].as_u64().unwrap_or(0) as usize, input["r1"].as_u64().unwrap_or(bh as u64) as usize);
     let (c0, c1) = (input["c0"].as_u64().unwrap_or(0) as usize, input["c1"].as_u64().unwrap_or(bw as u64) as usize);
     let img = if input["crop"].as_bool().unwrap_or(false) { base.crop(r0..r1, c0..c1) } else { base };
+    // a crop of the crop (selectors relative to the first window)
+    let img = match input["crop2"].as_array() {
+        Some(a) if a.len() == 4 => {
+            let g = |i: usize| a[i].as_u64().unwrap_or(0) as usize;
+            img.crop(g(0)..g(1), g(2)..g(3))
+        }
+        _ => img,
+    };
     let pix: Vec<String> = img.iter().map(|p| coq_rgba(*p)).collect();
     let (h, w) = (img.height(), img.width());
     let img2 = img.clone();
@@ -407,16 +416,27 @@ fn run_face_parse(input: &Value) -> Case {
     let r = catch(move || Face::from_str(&s2).map_err(|e| e.to_string()));
     let mut tbl = vec![];
     face_oracle(&s, &mut tbl);
+    // what the parser produced, printed and parsed again
+    let (printed, reparsed) = match &r {
+        Some(Ok(f)) => {
+            let p = f.to_string();
+            face_oracle(&p, &mut tbl);
+            let p2 = p.clone();
+            (p, catch(move || Face::from_str(&p2).map_err(|e| e.to_string())))
+        }
+        _ => (String::new(), Some(Err(String::new()))),
+    };
     let (rc, rj) = coq_fres(&r);
+    let (pc, pj) = coq_fres(&reparsed);
     let mut j = input.clone();
-    j["impl"] = rj;
+    j["impl"] = json!({"parsed": rj, "printed": printed, "reparsed": pj});
     let res = match &r {
         None => "panic",
         Some(Err(_)) => "err",
         Some(Ok(_)) => "ok",
     };
     Case {
-        coq: format!("CFaceParse {} {} {}", coq_str(&s), coq_ftbl(&tbl), rc),
+        coq: format!("CFaceParse {} {} {} {} {}", coq_str(&s), coq_ftbl(&tbl), rc, coq_str(&printed), pc),
         json: j,
         tags: vec!["kind=face_parse".to_string(), format!("face_parse={}", res)],
         nontrivial: s.len() > 1,
@@ -633,48 +653,137 @@ pub enum VRes {
     Abort,
 }
 
+/// a terminal that only answers size and capabilities: the way to a ViewContext without glyph support
+struct NullTerm {
+    caps: TerminalCaps,
+}
+
+impl std::io::Write for NullTerm {
+    fn write(&mut self, buf: &[u8]) -> std::io::Result<usize> {
+        Ok(buf.len())
+    }
+    fn flush(&mut self) -> std::io::Result<()> {
+        Ok(())
+    }
+}
+
+impl Terminal for NullTerm {
+    fn execute(&mut self, _cmd: TerminalCommand) -> Result<(), Error> {
+        Ok(())
+    }
+    fn waker(&self) -> TerminalWaker {
+        TerminalWaker::new(|| Ok(()))
+    }
+    fn poll(&mut self, _timeout: Option<std::time::Duration>) -> Result<Option<TerminalEvent>, Error> {
+        Ok(None)
+    }
+    fn dyn_ref(&mut self) -> &mut dyn Terminal {
+        self
+    }
+    fn size(&self) -> Result<TerminalSize, Error> {
+        Ok(term_size())
+    }
+    fn position(&mut self) -> Result<Position, Error> {
+        Ok(Position::origin())
+    }
+    fn frames_pending(&self) -> usize {
+        0
+    }
+    fn frames_drop(&mut self) {}
+    fn capabilities(&self) -> &TerminalCaps {
+        &self.caps
+    }
+}
+
+fn term_size() -> TerminalSize {
+    TerminalSize { cells: Size::new(24, 80), pixels: Size::new(24 * 20, 80 * 10) }
+}
+
+/// Lay out under loose, tight and unbounded constraints, with and without glyph support, and render with
+/// the layout obtained.  Layout and render of the view's own layout tree must complete: an `Err`
+/// (InvalidLayout ...) counts as a failure just like a panic does.
 fn layout_render(view: &dyn View) -> bool {
-    let ctx = ViewContext::dummy();
-    for size in [Size::new(5, 20), Size::new(0, 0), Size::new(1, 1), Size::new(3, 200)] {
-        let mut surf = SurfaceOwned::<Cell>::new(size);
-        let mut store = ViewLayoutStore::new();
-        // an Err from layout or render is a value, not a crash
-        if let Ok(layout) = view.layout_new(&ctx, BoxConstraint::loose(size), &mut store) {
-            let _ = view.render(&ctx, surf.as_mut(), layout.view());
+    let no_glyphs = NullTerm { caps: TerminalCaps { glyphs: false, ..TerminalCaps::default() } };
+    let contexts = [ViewContext::dummy(), ViewContext::new(&no_glyphs).expect("context")];
+    let mut ok = true;
+    for ctx in contexts.iter() {
+        let mut cts: Vec<BoxConstraint> = vec![];
+        for size in [Size::new(5, 20), Size::new(0, 0), Size::new(1, 1), Size::new(3, 200)] {
+            cts.push(BoxConstraint::loose(size));
+            cts.push(BoxConstraint::tight(size));
         }
-        let mut store = ViewLayoutStore::new();
-        if let Ok(layout) = view.layout_new(&ctx, BoxConstraint::tight(size), &mut store) {
-            let _ = view.render(&ctx, surf.as_mut(), layout.view());
+        // "unbounded": far beyond any terminal, but such that sums of a few extents still fit usize.  With
+        // usize::MAX itself flex_layout overflows when it adds the space between children (flex.rs:453,
+        // e.g. two children and justify space-between): extents no terminal has are outside C10's model.
+        let big = 1usize << 40;
+        cts.push(BoxConstraint::loose(Size::new(big, big)));
+        cts.push(BoxConstraint::new(Size::new(0, 3), Size::new(big, 7)));
+        cts.push(BoxConstraint::new(Size::new(2, 0), Size::new(2, big)));
+        for ct in cts {
+            let mut surf = SurfaceOwned::<Cell>::new(Size::new(5, 20));
+            let mut store = ViewLayoutStore::new();
+            match view.layout_new(ctx, ct, &mut store) {
+                Ok(layout) => ok &= view.render(ctx, surf.as_mut(), layout.view()).is_ok(),
+                Err(_) => ok = false,
+            }
         }
     }
-    true
+    ok
+}
+
+/// rasterisation of an accepted glyph document (informational: it happens in the terminal renderer, after
+/// View::render): Some(true) completed, Some(false) panicked, None not tried (big cell size)
+fn raster_probe(g: &Glyph) -> Option<bool> {
+    let size = g.size();
+    if size.height > 8 || size.width > 16 {
+        return None;
+    }
+    let r = std::panic::catch_unwind(std::panic::AssertUnwindSafe(|| {
+        let _ = g.rasterize(Face::default(), term_size());
+        let _ = g.rasterize(Face::new(Some(RGBA::new(1, 2, 3, 255)), Some(RGBA::new(9, 8, 7, 100)), FaceAttrs::EMPTY), term_size());
+    }));
+    Some(r.is_ok())
 }
 
 /// executed inside the child: deserialise as `kind`, then lay out and render
-pub fn view_one(kind: &str, text: &str) -> VRes {
-    let value: Value = match serde_json::from_str(text) {
-        Ok(v) => v,
-        Err(_) => return VRes::Err,
-    };
+pub fn view_one(kind: &str, text: &str) -> (VRes, Option<bool>) {
+    let mut probe: Option<bool> = None;
     let kind = kind.to_string();
-    let de = std::panic::catch_unwind(move || -> Result<Box<dyn View>, String> {
+    let text = text.to_string();
+    let de = std::panic::catch_unwind(std::panic::AssertUnwindSafe(|| -> Result<Box<dyn View>, String> {
+        if kind == "glyph_stream" {
+            // straight from text: the hand-written visitors see the keys in document order, repeats included
+            return serde_json::from_str::<Glyph>(&text)
+                .map(|g| {
+                    probe = raster_probe(&g);
+                    Box::new(g) as Box<dyn View>
+                })
+                .map_err(|e| e.to_string());
+        }
+        let value: Value = serde_json::from_str(&text).map_err(|e| e.to_string())?;
         match kind.as_str() {
             "text" => serde_json::from_value::<Text>(value).map(|t| Box::new(t) as Box<dyn View>).map_err(|e| e.to_string()),
-            "glyph" => serde_json::from_value::<Glyph>(value).map(|t| Box::new(t) as Box<dyn View>).map_err(|e| e.to_string()),
+            "glyph" => serde_json::from_value::<Glyph>(value)
+                .map(|g| {
+                    probe = raster_probe(&g);
+                    Box::new(g) as Box<dyn View>
+                })
+                .map_err(|e| e.to_string()),
             _ => {
                 let seed = ViewDeserializer::new(None, None);
                 (&seed).deserialize(value).map(|t| Box::new(t) as Box<dyn View>).map_err(|e| e.to_string())
             }
         }
-    });
-    match de {
+    }));
+    let res = match de {
         Err(_) => VRes::Panic,
         Ok(Err(_)) => VRes::Err,
         Ok(Ok(view)) => {
             let ok = std::panic::catch_unwind(std::panic::AssertUnwindSafe(|| layout_render(view.as_ref()))).unwrap_or(false);
             VRes::Ok(ok)
         }
-    }
+    };
+    (res, probe)
 }
 
 /// Run the documents in child processes (one child handles many).  Each answer is one line.  A child
@@ -749,8 +858,8 @@ fn run_in_children(docs: &[(String, String)]) -> Vec<Option<String>> {
 
 fn vres_of_line(l: &Option<String>) -> VRes {
     match l.as_deref() {
-        Some("ok1") => VRes::Ok(true),
-        Some("ok0") => VRes::Ok(false),
+        Some(l) if l.starts_with("ok1") => VRes::Ok(true),
+        Some(l) if l.starts_with("ok0") => VRes::Ok(false),
         Some("err") => VRes::Err,
         Some("panic") => VRes::Panic,
         _ => VRes::Abort,
@@ -817,20 +926,26 @@ fn orc_answer(kind: u32, v: &Value) -> bool {
     .unwrap_or(false)
 }
 
-fn collect_oracles(v: &Value, orc: &mut Vec<(u32, J, bool)>, ftbl: &mut Vec<(String, Option<RGBA>)>) {
+fn j_to_value(j: &J) -> Value {
+    serde_json::from_str(&j_text(j)).unwrap_or(Value::Null)
+}
+
+/// answers of the external deserialisers for every sub-value found under one of their keys (all occurrences
+/// of a repeated key included)
+fn collect_oracles(v: &J, orc: &mut Vec<(u32, J, bool)>, ftbl: &mut Vec<(String, Option<RGBA>)>) {
     match v {
-        Value::Array(a) => a.iter().for_each(|x| collect_oracles(x, orc, ftbl)),
-        Value::Object(m) => {
+        J::A(a) => a.iter().for_each(|x| collect_oracles(x, orc, ftbl)),
+        J::O(m) => {
             for (k, x) in m.iter() {
                 for (key, kind) in ORC_KEYS.iter() {
                     if k == key {
-                        orc.push((*kind, j_from_value(x), orc_answer(*kind, x)));
+                        orc.push((*kind, x.clone(), orc_answer(*kind, &j_to_value(x))));
                     }
                 }
                 if k == "horizontal" {
-                    orc.push((9, j_from_value(x), orc_answer(9, x)));
+                    orc.push((9, x.clone(), orc_answer(9, &j_to_value(x))));
                 }
-                if let Value::String(s) = x {
+                if let J::S(s) = x {
                     if k == "face" {
                         face_oracle(s, ftbl);
                     }
@@ -845,15 +960,20 @@ fn collect_oracles(v: &Value, orc: &mut Vec<(u32, J, bool)>, ftbl: &mut Vec<(Str
     }
 }
 
-fn view_case(input: &Value, res: &VRes) -> Case {
+fn view_case(input: &Value, res: &VRes, line: &Option<String>) -> Case {
     let doc = j_from_spec(&input["doc"]);
     let kind = input["what"].as_str().unwrap_or("view");
     let text = j_text(&doc);
-    let value: Value = serde_json::from_str(&text).unwrap_or(Value::Null);
-    let seen = j_from_value(&value);
+    // what the deserialiser was handed: the Value serde_json built (unique sorted keys), or, streamed, the
+    // document itself
+    let seen = if kind == "glyph_stream" {
+        if serde_json::from_str::<Value>(&text).is_ok() { doc.clone() } else { J::Null }
+    } else {
+        j_from_value(&serde_json::from_str::<Value>(&text).unwrap_or(Value::Null))
+    };
     let mut orc = vec![];
     let mut ftbl = vec![];
-    collect_oracles(&value, &mut orc, &mut ftbl);
+    collect_oracles(&seen, &mut orc, &mut ftbl);
     let orc_c = clist(orc.iter().map(|(k, j, b)| format!("({}, {}, {})", k, j_coq(j), cbool(*b))));
     let (rc, rj) = match res {
         VRes::Ok(b) => (format!("(VOk {})", cbool(*b)), json!({ "ok": b })),
@@ -863,8 +983,13 @@ fn view_case(input: &Value, res: &VRes) -> Case {
     };
     let k = match kind {
         "text" => "KText",
-        "glyph" => "KGlyph",
+        "glyph" | "glyph_stream" => "KGlyph",
         _ => "KView",
+    };
+    let raster = match line.as_deref() {
+        Some(l) if l.ends_with("+raster_ok") => Some("glyph.rasterize=ok"),
+        Some(l) if l.ends_with("+raster_panic") => Some("glyph.rasterize=panic(outside the property)"),
+        _ => None,
     };
     let mut j = input.clone();
     j["impl"] = rj.clone();
@@ -872,7 +997,13 @@ fn view_case(input: &Value, res: &VRes) -> Case {
     Case {
         coq: format!("CView {} {} {} {} {}", k, j_coq(&seen), orc_c, coq_ftbl(&ftbl), rc),
         json: j,
-        tags: vec![format!("kind=view.{}", kind), format!("view={}", rj.as_str().unwrap_or("ok"))],
+        tags: {
+            let mut t = vec![format!("kind=view.{}", kind), format!("view={}", rj.as_str().unwrap_or("ok"))];
+            if let Some(r) = raster {
+                t.push(r.to_string());
+            }
+            t
+        },
         nontrivial: matches!(seen, J::O(_)),
     }
 }
@@ -985,7 +1116,7 @@ const COLORS: [&str; 8] = ["red", "#ff0000", "#00ff0080", "#fff", "nocolor", "",
 
 fn gen_face_str(rng: &mut Rng) -> String {
     let mut parts: Vec<String> = vec![];
-    let n = rng.below(4);
+    let n = rng.below(6);
     for _ in 0..n {
         let c: &str = *rng.pick(&COLORS[..]);
         parts.push(match rng.below(14) {
@@ -994,7 +1125,7 @@ fn gen_face_str(rng: &mut Rng) -> String {
             2 => format!(" fg = {} ", c),
             3 => "bold".to_string(),
             4 => "underline".to_string(),
-            5 => "underline_curly".to_string(),
+            5 => (*rng.pick(&["underline_double", "underline_curly", "underline_dotted", "underline_dashed", "blink", "reverse"])).to_string(),
             6 => " italic ".to_string(),
             7 => String::new(),
             8 => "strike".to_string(),
@@ -1033,9 +1164,10 @@ fn gen_glyph_fields(rng: &mut Rng) -> Vec<(String, J)> {
     if rng.chance(1, 4) {
         f.push((
             "view_box".to_string(),
-            match rng.below(4) {
+            match rng.below(5) {
                 0 => gen_scalar(rng),
                 1 => J::A(vec![J::U(0), J::U(0), J::U(0), J::U(0)]),
+                2 => J::A(vec![J::F(-1e308), J::F(5.0), J::F(1e308), J::F(-5.0)]),
                 _ => J::A(vec![J::F(0.0), J::F(0.0), J::F(10.0), J::F(10.0)]),
             },
         ));
@@ -1052,9 +1184,24 @@ fn gen_glyph_fields(rng: &mut Rng) -> Vec<(String, J)> {
             if rng.chance(1, 3) {
                 fr.push((
                     k.to_string(),
-                    match rng.below(4) {
+                    match rng.below(6) {
                         0 => gen_scalar(rng),
                         1 => J::A(vec![J::F(1.0), J::F(1.0)]),
+                        2 => {
+                            // extreme numbers: negative, huge, tiny
+                            let pick = |rng: &mut Rng| -> J {
+                                match rng.below(7) {
+                                    0 => J::F(-1.0),
+                                    1 => J::F(1e308),
+                                    2 => J::F(-1e308),
+                                    3 => J::F(1e-300),
+                                    4 => J::U(*rng.pick(&EXTREME)),
+                                    5 => J::I(-(rng.below(100) as i64) - 1),
+                                    _ => J::F(*rng.pick(&[0.0, 0.5, 3.0, 40.0, 1000.0])),
+                                }
+                            };
+                            J::A(vec![pick(rng), pick(rng), pick(rng), pick(rng)])
+                        }
                         _ => J::A(vec![J::F(1.0), J::F(2.0), J::F(0.5), J::U(0)]),
                     },
                 ));
@@ -1308,7 +1455,7 @@ pub fn generate(rng: &mut Rng, n: usize, tier: &str) -> Vec<Value> {
     }
     // deep nesting (serde_json refuses text nested deeper than 128)
     for how in 0..5u64 {
-        for depth in [20usize, 60, 120] {
+        for depth in [20usize, 60, 120, 125, 126, 127, 128, 129, 140] {
             let inner = if how <= 1 { js("x") } else { obj(vec![("type", js("text")), ("text", js("x"))]) };
             let doc = nest(inner, depth, how);
             let doc = if how <= 1 { obj(vec![("type", js("text")), ("text", doc)]) } else { doc };
@@ -1331,12 +1478,18 @@ pub fn generate(rng: &mut Rng, n: usize, tier: &str) -> Vec<Value> {
                 v.push(json!({"kind": "image", "stream": rng.chance(1, 2), "doc": j_to_spec(&doc)}));
             }
             18..=27 => {
-                let (bh, bw) = (rng.below(6), rng.below(6));
+                let (bh, bw) = if rng.chance(1, 4) { (rng.below(13), rng.below(13)) } else { (rng.below(6), rng.below(6)) };
                 let px = rng.bytes((4 * bh * bw) as usize);
                 let crop = rng.chance(1, 2);
                 let (r0, c0) = (rng.below(bh + 1), rng.below(bw + 1));
                 let (r1, c1) = (r0 + rng.below(bh + 1 - r0), c0 + rng.below(bw + 1 - c0));
-                v.push(json!({"kind": "image_rt", "bh": bh, "bw": bw, "px": jbytes(&px), "crop": crop, "r0": r0, "r1": r1, "c0": c0, "c1": c1}));
+                let mut case = json!({"kind": "image_rt", "bh": bh, "bw": bw, "px": jbytes(&px), "crop": crop, "r0": r0, "r1": r1, "c0": c0, "c1": c1});
+                if crop && rng.chance(1, 3) {
+                    let (h1, w1) = (r1 - r0, c1 - c0);
+                    let (a, c) = (rng.below(h1 + 1), rng.below(w1 + 1));
+                    case["crop2"] = json!([a, a + rng.below(h1 + 1 - a), c, c + rng.below(w1 + 1 - c)]);
+                }
+                v.push(case);
             }
             28..=35 => {
                 let c = *rng.pick(&[1u64, 3, 4]);
@@ -1368,7 +1521,41 @@ pub fn generate(rng: &mut Rng, n: usize, tier: &str) -> Vec<Value> {
             67..=72 => v.push(json!({"kind": "view", "what": "text", "doc": j_to_spec(&gen_text(rng, 3))})),
             73..=78 => {
                 let doc = if rng.chance(1, 10) { gen_scalar(rng) } else { J::O(gen_glyph_fields(rng)) };
-                v.push(json!({"kind": "view", "what": "glyph", "doc": j_to_spec(&doc)}));
+                if rng.chance(1, 2) {
+                    v.push(json!({"kind": "view", "what": "glyph", "doc": j_to_spec(&doc)}));
+                } else {
+                    // streamed from text, with repeated and shuffled keys: the Glyph / GlyphFrame visitors
+                    // themselves see the repeats
+                    let doc = match doc {
+                        J::O(mut f) => {
+                            let more = gen_glyph_fields(rng);
+                            for (k, x) in more {
+                                if rng.chance(1, 3) {
+                                    f.push((k, x));
+                                }
+                            }
+                            for i in (1..f.len()).rev() {
+                                let k = rng.below(i as u64 + 1) as usize;
+                                f.swap(i, k);
+                            }
+                            // repeats inside the frame too
+                            for (k, x) in f.iter_mut() {
+                                if k == "frame" {
+                                    if let J::O(fr) = x {
+                                        if let Some(first) = fr.first().cloned() {
+                                            if rng.chance(1, 2) {
+                                                fr.push(first);
+                                            }
+                                        }
+                                    }
+                                }
+                            }
+                            J::O(f)
+                        }
+                        other => other,
+                    };
+                    v.push(json!({"kind": "view", "what": "glyph_stream", "doc": j_to_spec(&doc)}));
+                }
             }
             _ => {
                 let d = 1 + rng.below(3) as u32;
@@ -1415,7 +1602,7 @@ pub fn batch(inputs: &[Value]) -> Batch {
             _ => {
                 let r = results.get(next).cloned().unwrap_or(None);
                 next += 1;
-                view_case(input, &vres_of_line(&r))
+                view_case(input, &vres_of_line(&r), &r)
             }
         })
         .collect();
